@@ -72,6 +72,7 @@ class Recorder(object):
         self.n_tests = 0
         self.t_reeval = 0.0
         self.installed = False
+        self.errors = []
 
     # ------------------------------------------------------------------ output
     def write(self, rec):
@@ -127,7 +128,8 @@ class Recorder(object):
             mon.register_callback(TOOL_ID, mon.events.PY_RETURN, None)
             mon.free_tool_id(TOOL_ID)
             self.installed = False
-        self.write({'k': 'summary', 'tests': self.n_tests, 'reeval_s': round(self.t_reeval, 2)})
+        self.write({'k': 'summary', 'tests': self.n_tests, 'reeval_s': round(self.t_reeval, 2),
+                    'recorder_errors': self.errors[:20]})
         self.f.close()
 
     # ------------------------------------------------------------------ who is calling
@@ -149,12 +151,25 @@ class Recorder(object):
 
     # ------------------------------------------------------------------ monitoring callbacks
     def on_start(self, code, offset):
+        # an exception escaping a monitoring callback would surface inside the test: never let one out
+        try:
+            self._on_start(code)
+        except Exception as ex:                      # noqa
+            self.errors.append('on_start: %s: %s' % (type(ex).__name__, ex))
+
+    def on_return(self, code, offset, retval):
+        try:
+            self._on_return(code)
+        except Exception as ex:                      # noqa
+            self.errors.append('on_return: %s: %s' % (type(ex).__name__, ex))
+
+    def _on_start(self, code):
         if self.cur is None or not self.enabled:
             return
         info = self.codes.get(code)
         if info is None or info[0] != 'getter':
             return
-        frame = sys._getframe(1)
+        frame = sys._getframe(2)
         if DEFECT != 'nested' and self.called_by_library(frame):
             return
         loc = frame.f_locals
@@ -174,19 +189,19 @@ class Recorder(object):
                     kw.setdefault(k, v)
         self.stack.append((frame, loc.get('self'), info, kw))
 
-    def on_return(self, code, offset, retval):
+    def _on_return(self, code):
         info = self.codes.get(code)
         if info is None:
             return
         if info[0] == 'init':
             if self.cur is not None and self.enabled:
-                obj = sys._getframe(1).f_locals.get('self')
+                obj = sys._getframe(2).f_locals.get('self')
                 if obj is not None and isinstance(obj, self.classes):
                     self.register(obj, 'construct')
             return
         if not self.stack:
             return
-        frame = sys._getframe(1)
+        frame = sys._getframe(2)
         for i in range(len(self.stack) - 1, -1, -1):
             if self.stack[i][0] is frame:
                 _, obj, inf, kw = self.stack[i]
